@@ -85,13 +85,21 @@ class TLCResult:
         return res
 
     def tuples(self, tag):
-        """Lines printed with PrintT(<<"TAG", ...>>): returns list of field lists."""
+        """Values printed with PrintT(<<"TAG", ...>>); TLC wraps long tuples over several lines,
+        so lines are joined until the brackets balance.  Returns a list of field lists."""
         res = []
-        pre = '<<"%s"' % tag
-        for ln in self.lines:
-            if ln.startswith(pre):
-                body = ln[2:-2]
+        pat = re.compile(r'^<<\s*"%s"' % re.escape(tag))
+        i, n = 0, len(self.lines)
+        while i < n:
+            ln = self.lines[i]
+            if pat.match(ln):
+                buf = ln
+                while _balance(buf) > 0 and i + 1 < n:
+                    i += 1
+                    buf += " " + self.lines[i].strip()
+                body = buf.strip()[2:-2]
                 res.append(_split_tuple(body))
+            i += 1
         return res
 
     def coverage(self):
@@ -102,6 +110,31 @@ class TLCResult:
             if m:
                 cov[m.group(1)] = (int(m.group(3)), int(m.group(4)))
         return cov
+
+
+def _balance(s):
+    depth, instr, i = 0, False, 0
+    while i < len(s):
+        c = s[i]
+        if instr:
+            if c == "\\":
+                i += 1
+            elif c == '"':
+                instr = False
+        elif c == '"':
+            instr = True
+        elif c == "<" and s[i:i + 2] == "<<":
+            depth += 1
+            i += 1
+        elif c == ">" and s[i:i + 2] == ">>":
+            depth -= 1
+            i += 1
+        elif c in "[{(":
+            depth += 1
+        elif c in "]})":
+            depth -= 1
+        i += 1
+    return depth
 
 
 def _split_tuple(body):
